@@ -8,7 +8,8 @@ EXTENDS SuffixArray, TLC
 
 KnownIds == {"C12-KF1", "C12-KF2", "C12-KF3", "C12-KF4"}
 
-TwoSymbols(t) == \E i, j \in 1..Len(t) : t[i] # t[j]
+(* written without \E: inside an action TLC would enumerate the witnesses as successor states *)
+TwoSymbols(t) == ~(\A i \in 1..Len(t) : t[i] = t[1])
 
 (* does the contract accept this answer event?  (state predicate; only the derived answers) *)
 HasF(e, f) == f \in DOMAIN e
@@ -49,9 +50,10 @@ G1p(e, subj) ==
     /\ subj.algo = "adaptive" => e.n >= 10000
     /\ e.len = e.n /\ e.distinct >= 2
     /\ (~e.perm \/ e.violations > 0)
+(* guards are evaluated as values (G = TRUE), never as actions *)
 KF1(e, subj) ==
-    \/ G1(e, subj) /\ sa' = e.sa /\ have' = TRUE /\ UNCHANGED T
-    \/ G1p(e, subj) /\ Same
+    IF e.op = "sa" THEN (G1(e, subj) = TRUE) /\ sa' = e.sa /\ have' = TRUE /\ UNCHANGED T
+    ELSE (G1p(e, subj) = TRUE) /\ Same
 
 (* C12-KF2: answers computed from an array recorded under C12-KF1 (LcpArray::new / Kasai, binary   *)
 (* search, find_pattern, count_pattern, the dictionary's rank-range matcher) follow the wrong      *)
@@ -62,7 +64,7 @@ G2(e, subj) ==
     /\ \/ have /\ ~IsSA(T, sa)
        \/ subj.fam = "dict" /\ TwoSymbols(T)
     /\ ~DerivedAns(e)
-KF2(e, subj) == G2(e, subj) /\ Same
+KF2(e, subj) == (G2(e, subj) = TRUE) /\ Same
 
 (* C12-KF3: dc3_construct special-cases length 2 with `text[0] <= text[1]`: for two EQUAL bytes    *)
 (* it returns [0, 1] although the shorter suffix T[1..] is the smaller one ([1, 0]).  Reached by   *)
@@ -78,7 +80,7 @@ G3(e, subj) ==
           /\ (have /\ sa = <<0, 1>>) \/ subj.fam = "dict"
           /\ ~DerivedAns(e)
 KF3(e, subj) ==
-    /\ G3(e, subj)
+    /\ G3(e, subj) = TRUE
     /\ IF e.op = "sa" THEN sa' = e.sa /\ have' = TRUE /\ UNCHANGED T ELSE Same
 
 (* C12-KF4: with optimize_small_alphabet = false the SA-IS bucket count is computed as             *)
@@ -88,13 +90,13 @@ G4(e, subj) ==
     /\ subj.variant = "sais_noopt"
     /\ e.op = "panic" /\ e.in = "sa"
     /\ e.head = "index out of bounds: the len is 0 but th"
-    /\ \E i \in 1..Len(T) : T[i] = 255
-KF4(e, subj) == G4(e, subj) /\ Same
+    /\ ~(\A i \in 1..Len(T) : T[i] # 255)
+KF4(e, subj) == (G4(e, subj) = TRUE) /\ Same
 
 (* guard (state predicate) and action of each deviation.  In KF mode a deviation whose guard     *)
 (* holds REPLACES the contract action for that event.                                             *)
 DevApplies(id, e, subj) ==
-    \/ id = "C12-KF1" /\ (G1(e, subj) \/ G1p(e, subj))
+    \/ id = "C12-KF1" /\ (IF e.op = "sa" THEN G1(e, subj) ELSE G1p(e, subj))
     \/ id = "C12-KF2" /\ G2(e, subj)
     \/ id = "C12-KF3" /\ G3(e, subj)
     \/ id = "C12-KF4" /\ G4(e, subj)
